@@ -14,12 +14,16 @@ Proof. exact emitted_all. Qed.
 
 Theorem C16_emits_window : forall wavs wmin wmax chunk,
   let '(lo, hi, out) := mono_m wavs wmin wmax chunk in
-  (1 <= chunk)%Z -> (lo <= hi)%Z -> out = zseq lo (Z.to_nat (hi - lo + 1)).
+  (lo <= hi)%Z -> out = zseq lo (Z.to_nat (hi - lo + 1)).
 Proof. exact mono_emits_window. Qed.
 
-(* the set of files does not depend on the memory limit *)
+(* a window holding no tabulated wavelength (e.g. [w, w], whose only wavelength is its excluded upper end) writes nothing *)
+Theorem C16_empty_window : forall wavs wmin wmax chunk,
+  let '(lo, hi, out) := mono_m wavs wmin wmax chunk in (hi < lo)%Z -> out = [].
+Proof. exact mono_empty_window. Qed.
+
+(* the set of files does not depend on the memory limit - any limit, also one too small for a single wavelength, and any window *)
 Theorem C16_chunk_independent : forall wavs wmin wmax c c',
-  (1 <= c)%Z -> (1 <= c')%Z -> (jlo wavs wmax <= jhi wavs wmin)%Z ->
   mono_m wavs wmin wmax c = mono_m wavs wmin wmax c'.
 Proof. exact mono_chunk_independent. Qed.
 
